@@ -54,7 +54,12 @@ def correspondence(ctx):
             inv_of = B.Inv(m)
             model = ans.split(" ")[0]
             try:
-                r = bench.rclass(constraints=objs)
+                # any collection, in any order: a list, or a tuple in another order than the version order
+                arg = list(objs)
+                if i % 2:
+                    rng.shuffle(arg)
+                    arg = tuple(arg)
+                r = bench.rclass(constraints=arg)
                 if dom[i]:
                     # history: the range answers membership questions BEFORE it is inverted (anything it remembers
                     # about them must not travel into the inverse)
